@@ -15,6 +15,7 @@ func init() {
 				e.AllowInline[f] = true
 			}
 			e.AllowInline["sort.Strings"] = false
+			e.SetGlobalStrings("os", "Args", []string{"prog"}) // the initialiser of package os is not executed
 		},
 		Obligs: func(tier string) []Oblig {
 			var r []Oblig
@@ -23,6 +24,10 @@ func init() {
 			}
 			r = append(r, Oblig{Harness: "vh_C13_io", Unroll: 8})
 			r = append(r, Oblig{Harness: "vh_C13_table", Unroll: 400})
+			for f := 0; f < 16; f++ {
+				r = append(r, Oblig{Harness: "vh_C13_log", Unroll: 400, Globals: map[string]int{"vhLogFn": f}})
+			}
+			r = append(r, Oblig{Harness: "vh_C13_flag", Unroll: 400})
 			for f := 0; f <= 6; f++ {
 				r = append(r, Oblig{Harness: "vh_C13_exit", Unroll: 8, Globals: map[string]int{"vhExitFn": f}})
 			}
